@@ -64,7 +64,7 @@ fn $name() {
 // @harness c10_cow_merge_compressed_head
 // @props C10 C01 C16
 // @tier quick
-// @cost 100
+// @cost 17
 // @timeout 1200
 // @needs B0
 // @desc the whole bodies of do_compressed_cow and do_back_cow (source read and backend write shimmed) on a 1 KiB cluster: the cluster written to the new host location is the SOURCE cluster (inflated compressed data / backing data) with the caller's bytes laid over exactly [off_in_cls, off_in_cls+len) -- every other byte equals the source; the source is read whole, from the start of the guest cluster; exactly one write, cluster sized, at the new host offset
@@ -76,7 +76,7 @@ cow_merge!(c10_cow_merge_compressed_head, true, false);
 // @harness c10_cow_merge_compressed_tail
 // @props C10 C01 C16
 // @tier quick
-// @cost 100
+// @cost 17
 // @timeout 1200
 // @needs B0
 // @desc the whole bodies of do_compressed_cow and do_back_cow (source read and backend write shimmed) on a 1 KiB cluster: the cluster written to the new host location is the SOURCE cluster (inflated compressed data / backing data) with the caller's bytes laid over exactly [off_in_cls, off_in_cls+len) -- every other byte equals the source; the source is read whole, from the start of the guest cluster; exactly one write, cluster sized, at the new host offset
@@ -88,7 +88,7 @@ cow_merge!(c10_cow_merge_compressed_tail, true, true);
 // @harness c10_cow_merge_backing_head
 // @props C10 C01 C16
 // @tier quick
-// @cost 100
+// @cost 18
 // @timeout 1200
 // @needs B0
 // @desc the whole bodies of do_compressed_cow and do_back_cow (source read and backend write shimmed) on a 1 KiB cluster: the cluster written to the new host location is the SOURCE cluster (inflated compressed data / backing data) with the caller's bytes laid over exactly [off_in_cls, off_in_cls+len) -- every other byte equals the source; the source is read whole, from the start of the guest cluster; exactly one write, cluster sized, at the new host offset
@@ -100,7 +100,7 @@ cow_merge!(c10_cow_merge_backing_head, false, false);
 // @harness c10_cow_merge_backing_tail
 // @props C10 C01 C16
 // @tier quick
-// @cost 100
+// @cost 17
 // @timeout 1200
 // @needs B0
 // @desc the whole bodies of do_compressed_cow and do_back_cow (source read and backend write shimmed) on a 1 KiB cluster: the cluster written to the new host location is the SOURCE cluster (inflated compressed data / backing data) with the caller's bytes laid over exactly [off_in_cls, off_in_cls+len) -- every other byte equals the source; the source is read whole, from the start of the guest cluster; exactly one write, cluster sized, at the new host offset
